@@ -8,6 +8,8 @@ and must behave like a fresh evaluator of the last text it accepted; every const
 recompile is re-issued once (raise again / no-op)."""
 from __future__ import annotations
 
+import os
+
 from .. import impl, xlife
 from ..common import short
 
@@ -127,6 +129,68 @@ def _long_work(units):
     return out
 
 
+def _pairs_work(units):
+    """(current text, other text) colliding under a 32-bit fingerprint: recompile(other) on an evaluator
+    built from `current` must do what a fresh construction from `other` does (switch or raise) - twice"""
+    from ..common import quiet
+
+    out = {"cov": {}, "viol": [], "outcomes": [], "samples": [], "known": {}}
+    probes = [{"uid": u} for u in (1, "1", 7, "x")]
+    for name, cur, other in units:
+        fresh = impl.build(other)
+        want_ok = fresh[0] == "ok"
+        want = [impl.call(fresh[1], x) for x in probes] if want_ok else None
+        b = impl.build(cur)
+        if b[0] != "ok":
+            continue
+        before = [impl.call(b[1], x) for x in probes]
+        for attempt in (1, 2):
+            try:
+                with quiet():
+                    b[1].recompile(other)
+                raised = False
+            except Exception:  # noqa
+                raised = True
+            after = [impl.call(b[1], x) for x in probes]
+            out["cov"]["transitions"] = out["cov"].get("transitions", 0) + 1
+            ok = (not raised and after == want) if want_ok else (raised and after == before)
+            out["outcomes"].append(f"pair:{name.split('/')[0]}:{want_ok}:{ok}")
+            if not ok:
+                out["cov"]["violating_cases"] = out["cov"].get("violating_cases", 0) + 1
+                out["viol"].append({"kind": "life:collision", "fingerprint": name, "current": cur, "text": other, "attempt": attempt,
+                                    "why": f"recompile of a text whose {name.split('/')[0]} fingerprint equals the current text's: " +
+                                           ("it must switch to the new experiment" if want_ok else "it is invalid and must raise every time, changing nothing") +
+                                           f"; raised={raised}, probes {'unchanged' if after == before else 'changed'}"})  # fmt: skip
+                break
+    return out
+
+
+def collision_pairs(res):
+    import json
+
+    from ..common import VERIF, pmap
+    from ..enum import collide
+
+    path = os.path.join(VERIF, "tools", "collision_pairs.json")
+    if not os.path.exists(path):
+        return
+    fps = collide._fingerprints()
+    units = []
+    for name, (cur, other) in sorted(json.load(open(path))["pairs"].items()):
+        fp = fps[name.split("/")[0]]
+        if fp(cur.encode()) != fp(other.encode()) or cur == other:
+            raise AssertionError(f"stale collision pair {name}")
+        units.append((name, cur, other))
+    for w in pmap(_pairs_work, units, chunk=4, inline_ok=False):
+        res.merge_worker(w)
+    res.set("fingerprint_collision_pairs", len(units))
+
+
+def replay_collision(data):
+    r = _pairs_work([(data["fingerprint"], data["current"], data["text"])])
+    return bool(r["viol"]), (r["viol"][0]["why"] if r["viol"] else "behaves like a fresh construction")
+
+
 def long_histories(res, tier):
     from ..common import pmap
 
@@ -147,6 +211,7 @@ def run(res, tier):
     spec = spec_for(tier)
     xlife.explore(res, spec)
     long_histories(res, tier)
+    collision_pairs(res)
     res.set("traces_validated_against_impl", res.cov.get("transitions", 0))
     res.set("bounds", {"slots": spec.slots, "depth": spec.depth, "texts": sorted(TEXTS), "inputs": len(spec.inputs), "accepted_by_fresh_constructor": sorted(k for k, v in spec.fresh.items() if v)})
     if res.cov.get("global_state_changed") and not res.cov.get("isolated_mode"):
@@ -157,6 +222,8 @@ def run(res, tier):
 def replay(data):
     if data.get("kind") == "life:long":
         return replay_long(data)
+    if data.get("kind") == "life:collision":
+        return replay_collision(data)
     spec = spec_for("thorough")
     spec.prepare()
     if data.get("kind") == "life:two-fresh-evaluators":
